@@ -257,6 +257,37 @@ def CW.Inv (frames : List Bytes) (s : CW) : Prop :=
   ∃ (done : List Bytes) (pre : Bytes), s.out = done.flatten ++ pre ∧ (s.holder = none → pre = []) ∧
     (done ++ (match s.holder with | none => [] | some r => [pre ++ r.flatten]) ++ s.waiting.map List.flatten).Perm frames
 
+/-! ## `LoggingTransport` (`loggingConn`, `mcp/transport.go`)
+
+A connection around a connection: `Read` and `Write` call the delegate and hand its result on as it is;
+beside that they write one line to the log — `read: ` / `write: ` and `EncodeMessage` of the message, or
+`read error: …` / `write error: …`. -/
+
+inductive LogEntry where
+  | read (v : JVal) | readErr | write (v : JVal) | writeErr
+deriving DecidableEq, Repr, Inhabited
+
+/-- `loggingConn.Read` on what the delegate's `Read` returned -/
+def logRead (o : ReadOut) : ReadOut × LogEntry :=
+  (o, match o with | .msg m => .read (encodeMsg m) | .err _ => .readErr)
+
+/-- `loggingConn.Write` on what the delegate's `Write` did (a panic of the delegate passes through: no line) -/
+def logWrite (m : Msg) (o : WriteOut) : WriteOut × Option LogEntry :=
+  (o, if o = .panic then none else some (.write (encodeMsg m)))
+
+/-- what passes through a logging connection -/
+inductive LogEv where
+  | read (o : ReadOut)
+  | write (m : Msg) (o : WriteOut)
+deriving Repr, Inhabited
+
+def logOf : List LogEv → List LogEntry
+  | [] => []
+  | .read o :: t => (logRead o).2 :: logOf t
+  | .write m o :: t => match (logWrite m o).2 with
+    | some e => e :: logOf t
+    | none => logOf t
+
 /-! ## The abstract specification of batch replies (what C02 asks for)
 
 Per accepted batch: one slot per CALL of the batch, in batch order, holding the call's id and its
